@@ -43,6 +43,11 @@ pub fn zoned_invariant(cx: &mut Ctx, z: &ZoneCase, zd: &Zoned, what: &str, case:
     match r {
         Err(p) => cx.violation(&format!("C13-invariant/panic@{}", p.loc()), || case(), || "no panic".into(), || p.what.clone()),
         Ok((a, b, o, t)) => {
+            // the value itself: in range and normalised (second and nanosecond of the instant with the same sign), so that
+            // ==, ordering, hashing and as_second()/subsec_nanosecond() agree with the instant it denotes
+            if let Err(e) = crate::c05::V::Zoned(zd.clone()).in_range() {
+                cx.violation(&format!("C13-invariant/value-not-in-range-or-denormalized[{}]", what), || case(), || "a normalised in-range value".into(), || e.clone());
+            }
             if !a {
                 cx.violation(&format!("C13-invariant/offset-not-the-zone's-offset[{}]", what), || case(), || "offset() == time_zone().to_offset(timestamp())".into(), || format!("offset {}", o));
             }
